@@ -126,6 +126,13 @@ fn main() {
     for s in ["", ".", "..", "...", "v4", "v4.local", "\u{0}", "v2\u{2024}local\u{2024}AAAA", "v2.local\u{e9}.AAAA", "\u{65e5}\u{672c}.\u{8a9e}\u{65e5}\u{672c}\u{8a9e}.\u{65e5}"] {
         full.push(s.to_string());
     }
+    // every one-character string over quotes, brackets, separators, white space and controls, and two-character quote pairs
+    for c in "\"'`<>()[]{}.,:;=&%+-_/\\ \t\n\r\0Av\u{e9}\u{feff}".chars() {
+        full.push(c.to_string());
+    }
+    for s in ["\"\"", "''", "\" ", " \"", "==", "..", "\u{e9}\u{e9}"] {
+        full.push(s.to_string());
+    }
     for s in &full {
         run(&mut t, "v2.local/core", s, || Paseto::<V2, Local>::try_decrypt(s, &k2, None));
         run(&mut t, "v2.public/core", s, || Paseto::<V2, Public>::try_verify(s, &pk2, None));
@@ -175,6 +182,14 @@ fn main() {
     for raw in [
         "[]", "\"aud\"", "137", "true", "null", "{}", "{\"exp\":0}", "{\"exp\":null}", "{\"exp\":[\"2999-01-01T00:00:00Z\"]}", "{\"exp\":{\"exp\":\"2999-01-01T00:00:00Z\"}}", "{\"a\":1e400}", "{\"a\":-0.0}", "{\"a\":18446744073709551616}",
         "{\"a\":\"\\ud800\"}", "{\"a\":\"\\u0000\"}", "{\"a\":1,\"a\":2}", "{\"exp\":\"2999-01-01T00:00:00Z\"", "not json", "\u{feff}{}", " {} ",
+    ] {
+        payloads.push(raw.to_string());
+    }
+    // empty containers / strings and one-element arrays under the key the configured parser looks at; members NAMED like the
+    // time claims inside nested values; the empty member name
+    for raw in [
+        "{\"aud\":[]}", "{\"aud\":{}}", "{\"aud\":\"\"}", "{\"aud\":[\"customers\"]}", "{\"aud\":[[]]}", "{\"aud\":null}", "{\"\":7,\"aud\":\"customers\"}",
+        "{\"exp\":\"2999-01-01T00:00:00Z\",\"previous\":{\"exp\":\"2001-01-01T00:00:00Z\",\"nbf\":\"2999-01-01T00:00:00Z\"}}", "{\"history\":[{\"nbf\":7},{\"exp\":null}],\"aud\":\"customers\"}", "{\"exp\":[]}", "{\"nbf\":{}}",
     ] {
         payloads.push(raw.to_string());
     }
